@@ -176,12 +176,30 @@ Theorem C14_replace_inherits_links : forall W st comp old new st',
 Proof. intros W st comp old new st' HU. exact (replace_core_links W st comp old new HU st'). Qed.
 Print Assumptions C14_replace_inherits_links.
 
-(* every connection, partial: after the copy step of the replacement each connection list is the copied
-   partners -- in REVERSED order -- in front of what the channel listed before, and every connected channel
-   of the old node has a namesake on the replacement; so a channel of the (unconnected) replacement lists
-   exactly its namesake's partners, reversed: same connections, same priority only for <= 1 connection.
-   Missing: positions (refuted below); the lists after the old node is disconnected (model + correspondence). *)
-Theorem C14_replace_inherits_connections_partial : forall W st dst src vfh st',
+(* every connection the old node had, partial.  After a successful replace_child, in every well-formed graph
+   in which the old node is not connected to itself:
+   - the old node is connected to nothing;
+   - every other channel lists first the channels of the replacement that took over its connections to the
+     old node (newest first), then what it listed before minus the old node's channels -- the replacement
+     JUMPS TO TOP PRIORITY at its neighbours;
+   - each channel of the replacement lists exactly the partners of its namesake on the old node, in
+     REVERSED order: the same connections, the same priority only for <= 1 connection;
+   - every connected channel of the old node has a namesake on the replacement.
+   Missing from the full statement: "the same priority among multiple connections" (refuted below). *)
+Theorem C14_replace_inherits_connections_partial : forall W st comp old new st',
+  WF (cn st) -> InRange W (cn st) -> uniq_labels W old -> no_self W (cn st) old ->
+  replace_core W st comp old new = (st', ROk) ->
+  (forall c, In c (all_chans W old) -> cn st' c = []) /\
+  (forall t, ~ In t (all_chans W old) ->
+     cn st' t = rev (partners (plan W new old (cn st)) t) ++
+                filter (fun p => negb (memn p (all_chans W old))) (cn st t)) /\
+  (forall ch x, In ch (all_chans W old) -> my_chan W new ch = Some x -> cn st' x = rev (cn st ch)) /\
+  (forall ch, In ch (all_chans W old) -> cn st ch <> [] -> my_chan W new ch <> None).
+Proof. intros. eapply replace_core_connections; eassumption. Qed.
+Print Assumptions C14_replace_inherits_connections_partial.
+
+(* the same for a bare copy_io: what a successful copy transfers, and in which order *)
+Theorem C14_copy_io_transfers_partial : forall W st dst src vfh st',
   dst <> src -> Sym (cn st) -> NoDupS (cn st) -> uniq_labels W src -> third_party W dst src (cn st) ->
   copy_io W st dst src true vfh = (st', COk) ->
   linked (cn st) (plan W dst src (cn st)) (cn st') /\
@@ -190,11 +208,11 @@ Theorem C14_replace_inherits_connections_partial : forall W st dst src vfh st',
      cn st' x = rev (cn st ch)).
 Proof.
   intros W st dst src vfh st' Hne HS HN HU HT E.
-  destruct (copy_io_transfers W st dst src Hne HS HN HU HT vfh st' E) as [L M].
+  destruct (copy_io_transfers W st dst src Hne HS HN HU HT vfh st' E) as (L & M & _).
   split; [exact L|]. split; [exact M|].
   intros ch x Hch My Hx. exact (copy_io_reverses W st dst src Hne HS HN HU HT vfh st' ch x E Hch My Hx).
 Qed.
-Print Assumptions C14_replace_inherits_connections_partial.
+Print Assumptions C14_copy_io_transfers_partial.
 
 (* "with the same priority among multiple connections" is FALSE of the code: n3.x lists [n2.y, n1.y];
    after n1 is replaced by n4 it lists [n4.y, n2.y] -- the replacement jumped the queue (S13 / S7) *)
